@@ -313,7 +313,15 @@ pub fn lax_pool(c: &Case) -> Vec<StepObs> {
         let (got, want): (Option<LOH>, Option<Plain>) = match op {
             PoolOp::Compose { i, j } => {
                 let (a, b) = (pick(i), pick(j));
-                (if step % 2 == 0 { a.0.compose(&b.0) } else { &a.0 >> &b.0 }, a.1.glue(&b.1))
+                let want = a.1.glue(&b.1);
+                // the unchecked form is only comparable when the types match (it is defined iff the arities do)
+                let got = match step % 3 {
+                    0 => a.0.compose(&b.0),
+                    1 => &a.0 >> &b.0,
+                    _ if want.is_some() => a.0.lax_compose(&b.0),
+                    _ => a.0.compose(&b.0),
+                };
+                (got, want)
             }
             PoolOp::Sandwich { i, j } => {
                 let (a, b) = (pick(i), pick(j));
@@ -327,11 +335,19 @@ pub fn lax_pool(c: &Case) -> Vec<StepObs> {
             }
             PoolOp::Tensor { i, j } => {
                 let (a, b) = (pick(i), pick(j));
-                let t = match step % 4 {
+                let t = match step % 5 {
                     0 => a.0.tensor(&b.0),
                     1 => &a.0 | &b.0,
                     // the trait-level method (shadowed by the inherent one in a method call)
                     2 => <LOH as Monoidal>::tensor(&a.0, &b.0),
+                    3 => {
+                        // append leaves the boundaries alone and reports where the operand's went
+                        let mut x = a.0.clone();
+                        let (s, t) = x.append(b.0.clone());
+                        x.sources.extend(s);
+                        x.targets.extend(t);
+                        x
+                    }
                     _ => {
                         let mut x = a.0.clone();
                         x.tensor_assign(b.0.clone());
@@ -401,7 +417,8 @@ pub fn lax_pool(c: &Case) -> Vec<StepObs> {
         };
         let keep = want.as_ref().map_or(false, |w| w.w.len() <= MAX_NODES && w.e.len() <= MAX_NODES);
         let trait_types = got.as_ref().map(|g| (Arrow::source(g), Arrow::target(g)));
-        let got_plain = got.as_ref().map(|g| B::<VecKind>::from_dev(&g.clone().to_strict()));
+        #[allow(deprecated)]
+        let got_plain = got.as_ref().map(|g| B::<VecKind>::from_dev(&if step % 2 == 0 { g.clone().to_strict() } else { g.clone().to_open_hypergraph() }));
         let ok = matches!(got_plain, Some(Ok(_)));
         out.push(StepObs { step, what: format!("lax {:?}", op), trait_types, got: got_plain, want: want.clone() });
         if let (Some(g), Some(w), true, true) = (got, want, keep, ok) {
